@@ -6,9 +6,10 @@ import json, os, subprocess, sys, time
 sys.path.insert(0, os.path.dirname(os.path.abspath(__file__)))
 import fmcbuild
 from checks import CHECKS, HARNESSES
+JP = os.environ.get("PROFILE_JSON", "/tmp/profile_thorough.json")
 cap = float(sys.argv[1]) if len(sys.argv) > 1 else 150.0
 ids = sys.argv[2:] or sorted(CHECKS)
-out = json.load(open("/tmp/profile_thorough.json")) if os.path.exists("/tmp/profile_thorough.json") else {}
+out = json.load(open(JP)) if os.path.exists(JP) else {}
 outdir = "/tmp/profile_thorough_out"
 os.makedirs(outdir, exist_ok=True)
 libdir = fmcbuild.build_lib()
@@ -35,4 +36,4 @@ for pid in ids:
             rec.update(complete=False, error="no result")
         out["%s-%d" % (pid, idx)] = rec
         print(pid, idx, rec["args"], "complete=%s" % rec.get("complete"), "wall=%.0f" % w, "FAILURES=%d" % len(rec.get("failures", [])) if rec.get("failures") else "", flush=True)
-        json.dump(out, open("/tmp/profile_thorough.json", "w"), indent=1)
+        json.dump(out, open(JP, "w"), indent=1)
